@@ -21,4 +21,12 @@ TLongTop == {86400, 172800}
 JLong == {21700, 43300}
 TTLDay == {3600, 86400}
 TTLDayOnly == {86400}
+\* content kinds / the denied-subtree family (a slow denial: 2 ticks = held back 1.5 s, longer than a 1 s lease)
+KindPos == {"pos"}
+KindNeg == {"negsub"}
+KindBoth == {"pos", "negsub"}
+NoLat == {0}
+LatSlow == {0, 2}
+LatSlowOnly == {2}
+T11 == {1}
 =============================================================================
